@@ -1,6 +1,7 @@
 import Vflow.Proofs.RoundV9
 import Vflow.Proofs.HeaderLayouts
 import Vflow.Proofs.Interpret
+import Vflow.Proofs.V9IRTpl
 import Vflow.Gen.Sites
 import Vflow.Spec.Sites
 /-!
@@ -268,6 +269,129 @@ theorem gen_fieldSpec_layout (r : Rd) (id len : Nat) (r2 : Rd)
     V9.readSpec r = (.ok ⟨id, len, 0⟩, r2) := HeaderLayouts.v9_fieldSpec_read r id len r2 h
 theorem gen_fieldSpec_short (r : Rd) (h : V5.readFields (V5.widths Gen.Layouts.v9FieldSpec) r = none) :
     (V9.readSpec r).1 = .error .short := HeaderLayouts.v9_fieldSpec_short r h
+
+/-! ## Tie: the decoder's functions TRANSLATED statement by statement on every run (`Gen.V9IR`, from the Go AST by
+`go/cmd/factgen/ipfix_ir.go`, second profile) and interpreted with Go's semantics (`Model/IpfixIR.lean`; linked in
+`Model/V9Prog.lean`) ARE the functions of the hand-written model `Vflow.V9` — for every argument, reader state, cache,
+exporter address and fuel (as C03 for IPFIX; proofs in `Proofs/V9IR.lean`, `Proofs/V9IRTpl.lean`; `decodeSet` /
+`Decode`: C09). -/
+
+/-- the struct declarations the interpreter's field semantics stand for -/
+theorem gen_ir_structs :
+    Gen.V9IR.structs =
+      [("nonfatalError", "error"),
+       ("PacketHeader", "Version uint16; Count uint16; SysUpTime uint32; UNIXSecs uint32; SeqNum uint32; SrcID uint32"),
+       ("SetHeader", "FlowSetID uint16; Length uint16"),
+       ("TemplateHeader", "TemplateID uint16; FieldCount uint16; OptionLen uint16; OptionScopeLen uint16"),
+       ("TemplateFieldSpecifier", "ElementID uint16; Length uint16"),
+       ("TemplateRecord", "TemplateID uint16; FieldCount uint16; FieldSpecifiers []TemplateFieldSpecifier; ScopeFieldCount uint16; ScopeFieldSpecifiers []TemplateFieldSpecifier"),
+       ("DecodedField", "ID uint16; Value interface{}"),
+       ("Decoder", "raddr net.IP; reader *reader.Reader"),
+       ("Message", "AgentID string; Header PacketHeader; DataSets [][]DecodedField"),
+       ("ElementKey", "EnterpriseNo uint32; ElementID uint16"),
+       ("InfoElementEntry", "FieldID uint16; Name string; Type FieldType")] := by decide +kernel
+
+/-- **`TemplateRecord.minRecordLen` translated = `V9.minRecLen`** -/
+theorem gen_ir_minRecordLen (addr : Bytes) (fuel : Nat) (st : IpfixIR.St) (t : Template) :
+    V9Prog.minRecordLen addr fuel [.tpl t] st = some (st, [.tpl t], [.int (V9.minRecLen t)]) :=
+  V9IR.minRecordLen_sem addr fuel st t
+
+/-- **`Decoder.decodeData` translated = `V9.decodeData`** for every template, reader state and cache: per specifier the
+read, THEN the element lookup (a missing element is reported after its octets were consumed), `Interpret`, `append`;
+the reader's error is fatal, the missing element non-fatal -/
+theorem gen_ir_decodeData (addr : Bytes) (fuel : Nat) (r : Rd) (c : Cache) (t : Template)
+    (hs : t.scope.length < fuel) (hf : t.fields.length < fuel) :
+    V9Prog.decodeData addr fuel [.tpl t] ⟨r, c⟩ =
+      some (⟨(V9.decodeData t r).2, c⟩, [], V9Prog.recResult (V9.decodeData t r).1) :=
+  V9IR.decodeData_sem addr fuel r c t hs hf
+
+/-- **`TemplateFieldSpecifier.unmarshal` translated = `V9.readSpec`** (the Go struct has no enterprise number: the
+third component of the model's `Spec` is 0 and stays 0) -/
+theorem gen_ir_fieldSpecUnmarshal (addr : Bytes) (fuel : Nat) (r : Rd) (c : Cache) (s0 : Spec) (h0 : s0.ent = 0) :
+    match V9.readSpec r with
+    | (.ok s, r') => V9Prog.fieldSpecUnmarshal addr fuel [.spec s0] ⟨r, c⟩ = some (⟨r', c⟩, [.spec s], [.nil])
+    | (.error e, r') => ∃ s', V9Prog.fieldSpecUnmarshal addr fuel [.spec s0] ⟨r, c⟩ =
+        some (⟨r', c⟩, [.spec s'], [.err ⟨false, e⟩]) :=
+  V9IR.fieldSpecUnmarshal_sem addr fuel r c s0 h0
+
+/-- **`TemplateHeader.unmarshal` translated**: TemplateID, FieldCount -/
+theorem gen_ir_tplHeaderUnmarshal (addr : Bytes) (fuel : Nat) (r : Rd) (c : Cache) (a b ol osl : Nat) :
+    V9Prog.tplHeaderUnmarshal addr fuel [.thdr9 a b ol osl] ⟨r, c⟩ =
+      match r.rU16 with
+      | none => some (⟨r, c⟩, [.thdr9 0 b ol osl], [IpfixIR.errReader])
+      | some (tid, r1) =>
+        match r1.rU16 with
+        | none => some (⟨r1, c⟩, [.thdr9 tid 0 ol osl], [IpfixIR.errReader])
+        | some (n, r2) => some (⟨r2, c⟩, [.thdr9 tid n ol osl], [.nil]) :=
+  V9IR.tplHeaderUnmarshal_sem addr fuel r c a b ol osl
+
+/-- **`TemplateHeader.unmarshalOpts` translated**: TemplateID, OptionScopeLen, OptionLen (in this order) -/
+theorem gen_ir_tplHeaderUnmarshalOpts (addr : Bytes) (fuel : Nat) (r : Rd) (c : Cache) (a b ol osl : Nat) :
+    V9Prog.tplHeaderUnmarshalOpts addr fuel [.thdr9 a b ol osl] ⟨r, c⟩ =
+      match r.rU16 with
+      | none => some (⟨r, c⟩, [.thdr9 0 b ol osl], [IpfixIR.errReader])
+      | some (tid, r1) =>
+        match r1.rU16 with
+        | none => some (⟨r1, c⟩, [.thdr9 tid b ol 0], [IpfixIR.errReader])
+        | some (sl, r2) =>
+          match r2.rU16 with
+          | none => some (⟨r2, c⟩, [.thdr9 tid b 0 sl], [IpfixIR.errReader])
+          | some (l, r3) => some (⟨r3, c⟩, [.thdr9 tid b l sl], [.nil]) :=
+  V9IR.tplHeaderUnmarshalOpts_sem addr fuel r c a b ol osl
+
+/-- **`SetHeader.unmarshal` translated**: FlowSetID then Length -/
+theorem gen_ir_setHeaderUnmarshal (addr : Bytes) (fuel : Nat) (r : Rd) (c : Cache) (a b : Nat) :
+    V9Prog.setHeaderUnmarshal addr fuel [.shdr a b] ⟨r, c⟩ =
+      match r.rU16 with
+      | none => some (⟨r, c⟩, [.shdr 0 b], [IpfixIR.errReader])
+      | some (sid, r1) =>
+        match r1.rU16 with
+        | none => some (⟨r1, c⟩, [.shdr sid 0], [IpfixIR.errReader])
+        | some (len, r2) => some (⟨r2, c⟩, [.shdr sid len], [.nil]) :=
+  V9IR.setHeaderUnmarshal_sem addr fuel r c a b
+
+/-- **`TemplateRecord.unmarshal` translated = `V9.parseTpl`** on a fresh record, for every reader state; `fuel`: more
+than the octets left -/
+theorem gen_ir_tplRecordUnmarshal (addr : Bytes) (fuel : Nat) (r : Rd) (c : Cache) (hfuel : r.rem.length < fuel) :
+    match V9.parseTpl r with
+    | (.ok t, r') => V9Prog.tplRecordUnmarshal addr fuel [.tpl V9.emptyTpl] ⟨r, c⟩ = some (⟨r', c⟩, [.tpl t], [.nil])
+    | (.error e, r') => ∃ t', V9Prog.tplRecordUnmarshal addr fuel [.tpl V9.emptyTpl] ⟨r, c⟩ =
+        some (⟨r', c⟩, [.tpl t'], [.err ⟨false, e⟩]) :=
+  V9IR.tplRecordUnmarshal_sem addr fuel r c hfuel
+
+/-- **`TemplateRecord.unmarshalOpts` translated = `V9.parseOptTpl`**: `OptionScopeLen / 4` scope specifiers, then
+`OptionLen / 4` option specifiers; `FieldCount` stays 0 -/
+theorem gen_ir_tplRecordUnmarshalOpts (addr : Bytes) (fuel : Nat) (r : Rd) (c : Cache) (hfuel : r.rem.length < fuel) :
+    match V9.parseOptTpl r with
+    | (.ok t, r') => V9Prog.tplRecordUnmarshalOpts addr fuel [.tpl V9.emptyTpl] ⟨r, c⟩ = some (⟨r', c⟩, [.tpl t], [.nil])
+    | (.error e, r') => ∃ t', V9Prog.tplRecordUnmarshalOpts addr fuel [.tpl V9.emptyTpl] ⟨r, c⟩ =
+        some (⟨r', c⟩, [.tpl t'], [.err ⟨false, e⟩]) :=
+  V9IR.tplRecordUnmarshalOpts_sem addr fuel r c hfuel
+
+/-- **`PacketHeader.unmarshal` translated = `V9.readHeader`** -/
+theorem gen_ir_pktHeaderUnmarshal (addr : Bytes) (fuel : Nat) (r : Rd) (c : Cache) (h0 : IpfixIR.PHdr) :
+    match V9.readHeader r with
+    | some (h, r') => ∃ h1 : IpfixIR.PHdr, h1.toHdr = h ∧
+        V9Prog.pktHeaderUnmarshal addr fuel [.phdr h0] ⟨r, c⟩ = some (⟨r', c⟩, [.phdr h1], [.nil])
+    | none => ∃ r' h1, V9Prog.pktHeaderUnmarshal addr fuel [.phdr h0] ⟨r, c⟩ =
+        some (⟨r', c⟩, [.phdr h1], [IpfixIR.errReader]) :=
+  V9IR.pktHeaderUnmarshal_sem addr fuel r c h0
+
+/-- **`PacketHeader.validate` translated**: version 9 or the (fatal) version error -/
+theorem gen_ir_pktHeaderValidate (addr : Bytes) (fuel : Nat) (st : IpfixIR.St) (h : IpfixIR.PHdr) :
+    V9Prog.pktHeaderValidate addr fuel [.phdr h] st =
+      some (st, [.phdr h], [if h.toHdr.headD 0 ≠ 9 then .err ⟨false, .badVersion⟩ else .nil]) :=
+  V9IR.pktHeaderValidate_sem addr fuel st h
+
+set_option maxRecDepth 100000 in
+/-- non-vacuity: the translated `unmarshalOpts` on an options template record with 4 octets of scope and 8 octets of
+options (template 257), and the translated `minRecordLen` on the example template -/
+example : V9Prog.tplRecordUnmarshalOpts [] 19 [.tpl V9.emptyTpl]
+      ⟨⟨[1, 1, 0, 4, 0, 8, 0, 1, 0, 4, 0, 8, 0, 4, 0, 12, 0, 4], 0⟩, []⟩ =
+    some (⟨⟨[], 18⟩, []⟩, [.tpl ⟨257, 0, 0, [⟨1, 4, 0⟩], [⟨8, 4, 0⟩, ⟨12, 4, 0⟩]⟩], [.nil]) :=
+  gen_ir_tplRecordUnmarshalOpts [] 19 ⟨[1, 1, 0, 4, 0, 8, 0, 1, 0, 4, 0, 8, 0, 4, 0, 12, 0, 4], 0⟩ [] (by decide)
+example : V9Prog.minRecordLen [] 0 [.tpl exTpl] ⟨⟨[], 0⟩, []⟩ = some (⟨⟨[], 0⟩, []⟩, [.tpl exTpl], [.int 8]) := by
+  rw [gen_ir_minRecordLen]; rfl
 
 /-- **Tie (control-flow skeleton)**: every branch / loop condition, switch case and `break` / `continue` of the
 sources this model mirrors, re-extracted on every run, is exactly the reviewed inventory in `Spec/Sites.lean`
